@@ -163,6 +163,24 @@ impl Ctx {
         self.issuers.insert(times.to_string(), rc.clone());
         rc
     }
+    /// The same trust anchor holding exactly the given resources and nothing else: every edge of what an object needs is an
+    /// edge of what its issuer has (None when the resources cannot be a trust anchor's: inherited, or nothing at all).
+    fn issuer_holding(&self, c: &Value, v4: &IpResources, v6: &IpResources, asn: &AsResources) -> Option<ResourceCert> {
+        if v4.is_inherited() || v6.is_inherited() || asn.is_inherited() || !(v4.is_present() || v6.is_present() || asn.is_present()) {
+            return None;
+        }
+        let (validity, now) = times_of(c);
+        let pk = self.pki.pubkey("k0");
+        let mut tbs = TbsCert::new(Serial::from(1u64), pk.to_subject_name(), validity, None, pk, KeyUsage::Ca, Overclaim::Refuse);
+        tbs.set_basic_ca(Some(true));
+        tbs.set_ca_repository(Some(rsync("rsync://repo.example/m/")));
+        tbs.set_rpki_manifest(Some(rsync("rsync://repo.example/m/ta.mft")));
+        tbs.set_v4_resources(v4.clone());
+        tbs.set_v6_resources(v6.clone());
+        tbs.set_as_resources(asn.clone());
+        let cert = tbs.into_cert(&self.pki.signer, &self.pki.key("k0")).ok()?;
+        cert.validate_ta_at(TalInfo::from_name("t".into()).into_arc(), true, now).ok()
+    }
 }
 
 fn cert_accessors(kind: &str, a: &Cert, b: &Cert) -> R<()> {
@@ -197,6 +215,8 @@ fn roa_prefix(i: u64) -> (IpAddr, u8, Option<u8>) {
         // nested in item 1 (pushed after it, the builder's resource chain sees a block inside its predecessor); max length = family limit
         2 => (IpAddr::V4(Ipv4Addr::new(10, 1, 0, 0)), 16, Some(32)),
         3 => (IpAddr::V6(Ipv6Addr::from(0x2001_0db8u128 << 96)), 32, Some(48)),
+        // the first address of item 1, more specific (whichever of the two is pushed first, both are in the list and in the certificate)
+        5 => (IpAddr::V4(Ipv4Addr::new(10, 0, 0, 0)), 16, None),
         _ => (IpAddr::V4(Ipv4Addr::new(0, 0, 0, 0)), 0, Some(0)),
     }
 }
@@ -438,6 +458,22 @@ fn run_case(ctx: &mut Ctx, c: &Value) -> R<()> {
             same!(kind, "content-reencode", built.content().encode_ref().to_captured(Mode::Der).into_bytes(), twin.content().encode_ref().to_captured(Mode::Der).into_bytes());
             rpki::repository::sigobj::SignedObject::decode(bytes.clone(), true).or_else(|x| e("roa:decode-sigobj", x))?
                 .validate_at(&issuer, true, now).or_else(|x| e("roa:validate", x))?;
+            // ... and under an issuer that holds exactly what the ROA's certificate says it needs
+            if let Some(tight) = ctx.issuer_holding(c, twin.cert().v4_resources(), twin.cert().v6_resources(), twin.cert().as_resources()) {
+                rpki::repository::sigobj::SignedObject::decode(bytes.clone(), true).or_else(|x| e("roa:decode-sigobj", x))?
+                    .validate_at(&tight, true, now).or_else(|x| e("roa:validate:tight-issuer", x))?;
+                if c["times"] == "far" {
+                    twin.clone().process(&tight, true, |_| Ok(())).map(|_| ()).or_else(|x| e("roa:validate:tight-issuer", x))?;
+                }
+            }
+            // every listed prefix lies inside the certificate's own resources (what process() asks, without a clock)
+            for a in twin.content().iter() {
+                let blk = rpki::repository::resources::IpBlock::from(a.prefix());
+                let res = if a.is_v4() { twin.cert().v4_resources() } else { twin.cert().v6_resources() };
+                if !res.to_blocks().map(|b| b.contains_block(blk)).unwrap_or(false) {
+                    return e("roa:validate:own-cert", format!("prefix {}/{} of the built ROA is not inside its own certificate's resources", a.address(), a.address_length()));
+                }
+            }
             // process() checks against the wall clock: only when the validity window contains it
             if c["times"] == "far" {
                 twin.process(&issuer, true, |_| Ok(())).map(|_| ()).or_else(|x| e("roa:validate", x))?;
@@ -487,6 +523,13 @@ fn run_case(ctx: &mut Ctx, c: &Value) -> R<()> {
             same!(kind, "content-reencode", built.content().encode_ref().to_captured(Mode::Der).into_bytes(), twin.content().encode_ref().to_captured(Mode::Der).into_bytes());
             rpki::repository::sigobj::SignedObject::decode(bytes.clone(), true).or_else(|x| e("aspa:decode-sigobj", x))?
                 .validate_at(&issuer, true, now).or_else(|x| e("aspa:validate", x))?;
+            if let Some(tight) = ctx.issuer_holding(c, twin.cert().v4_resources(), twin.cert().v6_resources(), twin.cert().as_resources()) {
+                rpki::repository::sigobj::SignedObject::decode(bytes.clone(), true).or_else(|x| e("aspa:decode-sigobj", x))?
+                    .validate_at(&tight, true, now).or_else(|x| e("aspa:validate:tight-issuer", x))?;
+                if c["times"] == "far" {
+                    twin.clone().process(&tight, true, |_| Ok(())).map(|_| ()).or_else(|x| e("aspa:validate:tight-issuer", x))?;
+                }
+            }
             // process() checks against the wall clock: only when the validity window contains it
             if c["times"] == "far" {
                 twin.process(&issuer, true, |_| Ok(())).map(|_| ()).or_else(|x| e("aspa:validate", x))?;
